@@ -1,4 +1,5 @@
 import TensorModel.Proofs.Kernels
+import TensorModel.Proofs.IterPaths
 /-!
   C12 — unary functions and mapped functions.
   Property theorems only; helper lemmas live in `TensorModel/Proofs/Kernels.lean`
@@ -164,6 +165,51 @@ theorem engMap_incr_bool_refused (st : St) (g : UnF) (mt : List String) (a r : D
     bind, Except.bind, pure, Except.pure, throwErr,
     Bool.not_true, Bool.false_eq_true, if_false, Bool.or_false, Bool.not_false, if_true]
 
+/-! ## generated unary methods on operands that need an iterator (views with gaps, pending transposes) -/
+
+/-- **Layout-blind, safe mode**: the result is a fresh clone `c` of the operand (same access pattern over a copy of its
+    storage window) in which every logical element - every cell the operand's iterator addresses - is `g` of the
+    operand's element there; the cells of the window that are no elements of the operand (the gaps of a view) keep their
+    value; the operand and every other pre-existing buffer are untouched. -/
+theorem engUnary_safe_iter (st : St) (g : UnF) (tc kt : List String) (strict : Bool) (a : Dense)
+    (htc : a.dt ∈ tc) (hk : a.dt ∈ kt) (hia : a.requiresIterator = true) (hm : a.mask = none)
+    (hoa : ∀ i ∈ a.offsets, 0 ≤ i ∧ i < (a.win.len : Int)) (hnd : a.offsets.Nodup)
+    (hA : InBuf st a.win.buf a.win.off a.win.len) :
+    ∃ out c, engUnary st g tc kt strict a {} = .ok out ∧ out.ret = .fresh c ∧
+      c.ap = { a.ap with fin := true } ∧ c.dt = a.dt ∧ c.win = ⟨st.heap.size, 0, a.win.len, a.win.len⟩ ∧
+      c.offsets = a.offsets ∧ out.st.mheap = st.mheap ∧
+      (∀ i ∈ a.offsets, ∃ x, cell st a.win.buf (a.win.off + i.toNat) = some x ∧
+        cell out.st c.win.buf i.toNat = some (g x)) ∧
+      (∀ m, m < a.win.len → (∀ i ∈ a.offsets, m ≠ i.toNat) →
+        cell out.st c.win.buf m = cell st a.win.buf (a.win.off + m)) ∧
+      (∀ b' k, b' < st.heap.size → cell out.st b' k = cell st b' k) := by
+  obtain ⟨st', h, hm', hv, hrest, hfr⟩ := engUnary_safe_iter' st g tc kt strict a (by simpa using htc) (by simpa using hk)
+    hia hm hoa hnd hA
+  refine ⟨_, _, h, rfl, rfl, rfl, rfl, rfl, hm', ?_, ?_, hfr⟩
+  · intro i hi
+    have h1 := hoa i hi
+    exact ⟨_, cell_some_cellD (hA.has.at h1.1 h1.2), hv i hi⟩
+  · intro m hm1 hne
+    show cell st' st.heap.size m = _
+    rw [hrest m hm1 hne, cell_some_cellD (hA.has m hm1)]
+
+/-- **… and `UseUnsafe()`**: exactly the operand's logical elements are replaced by `g` of themselves; every other
+    cell - the gaps of the view and the rest of its parent included - keeps its value. -/
+theorem engUnary_unsafe_iter (st : St) (g : UnF) (tc kt : List String) (strict : Bool) (a : Dense)
+    (htc : a.dt ∈ tc) (hk : a.dt ∈ kt) (hia : a.requiresIterator = true) (hm : a.mask = none)
+    (hoa : ∀ i ∈ a.offsets, 0 ≤ i ∧ i < (a.win.len : Int)) (hnd : a.offsets.Nodup)
+    (hA : InBuf st a.win.buf a.win.off a.win.len) :
+    ∃ out, engUnary st g tc kt strict a { unsafe_ := true } = .ok out ∧ out.ret = .a ∧ out.st.mheap = st.mheap ∧
+      (∀ i ∈ a.offsets, ∃ x, cell st a.win.buf (a.win.off + i.toNat) = some x ∧
+        cell out.st a.win.buf (a.win.off + i.toNat) = some (g x)) ∧
+      (∀ b' k', (b' ≠ a.win.buf ∨ ∀ i ∈ a.offsets, k' ≠ a.win.off + i.toNat) → cell out.st b' k' = cell st b' k') := by
+  obtain ⟨st', h, hm', hv, hfr⟩ := engUnary_unsafe_iter' st g tc kt strict a (by simpa using htc) (by simpa using hk)
+    hia hm hoa hnd hA
+  refine ⟨_, h, rfl, hm', ?_, hfr⟩
+  intro i hi
+  have h1 := hoa i hi
+  exact ⟨_, cell_some_cellD (hA.has.at h1.1 h1.2), hv i hi⟩
+
 namespace W
 def st : St := { heap := #[#[.src 0 0, .src 0 1], #[.src 1 0, .src 1 1]] }
 def a : Dense := { ap := { shape := [2], strides := [1] }, win := ⟨0, 0, 2, 2⟩, dt := "f64" }
@@ -206,6 +252,19 @@ example := engMap_reuse st g ["f64"] ta tr (by decide) (by decide) (by decide) f
 example := engMap_reuse st g ["f64"] ta ta (by decide) (by decide) (by decide)
   ⟨rfl, by decide, by decide, rfl⟩ rfl rfl inA inA
 example := engMap_incr st g ["f64"] ta tr (by decide) (by decide) (by decide) (by decide) fits rfl rfl rfl inA inR
+-- iterator path: a (1,3) view with a gap after every element (offsets 0, 2, 4 of a 5-cell window)
+def st6 : St := { heap := #[#[.src 0 0, .src 0 1, .src 0 2, .src 0 3, .src 0 4, .src 0 5]] }
+def tv : Dense := { ap := { shape := [1, 3], strides := [6, 2], o := { nonContig := true } }, win := ⟨0, 0, 5, 6⟩,
+                    dt := "f64", view := true }
+example : tv.offsets = [0, 2, 4] := by decide
+example := engUnary_safe_iter st6 g floatTypes floatTypes true tv (by decide) (by decide) (by decide) rfl (by decide)
+  (by decide) ⟨_, rfl, by decide⟩
+example := engUnary_unsafe_iter st6 g floatTypes floatTypes true tv (by decide) (by decide) (by decide) rfl (by decide)
+  (by decide) ⟨_, rfl, by decide⟩
+/-- the run: the elements of the view become `g` of themselves, the gap cells 1 and 3 and the parent's cell 5 stay -/
+example : ∃ out, engUnary st6 g floatTypes floatTypes true tv { unsafe_ := true } = .ok out ∧
+    cell out.st 0 0 = some (.app1 "g" (.src 0 0)) ∧ cell out.st 0 1 = some (.src 0 1) ∧
+    cell out.st 0 2 = some (.app1 "g" (.src 0 2)) ∧ cell out.st 0 5 = some (.src 0 5) := ⟨_, rfl, rfl, rfl, rfl, rfl⟩
 example := engMap_incr_bool_refused st g ["b"] { ta with dt := "b" } { tr with dt := "b" } (by decide) rfl (by decide)
   (by decide) ⟨rfl, by decide, by decide, rfl⟩ rfl rfl inA
 end Ex
